@@ -290,6 +290,11 @@ def _ensure_contract(u, fn, cfg, R):
         if k == 'bin' and e['op'] in ('+', '-'):
             l, r = ev(e['l'], st), ev(e['r'], st)
             if isinstance(l, Lin) and isinstance(r, Lin):
+                t = u.ty(e['ty'])
+                if e['op'] == '-' and t['c'] == 'int' and t.get('unsigned') and not entails(st.cons, r.add(l, -1)):
+                    # size_t arithmetic: a difference whose subtrahend is not known to be the smaller wraps around
+                    wraps.append((e, expr_str(e)))
+                    return ('opaque', 'wrapping ' + expr_str(e)[:30])
                 return l.add(r, 1 if e['op'] == '+' else -1)
             if isinstance(l, tuple) and l[0] == 'ptr' and isinstance(r, Lin):
                 return ('ptr', l[1], l[2].add(r, 1 if e['op'] == '+' else -1))
@@ -372,6 +377,10 @@ def _ensure_contract(u, fn, cfg, R):
             st.cons.append(d)
             st.cons.append(scale(d, -1))
 
+    def entails(cons, target):
+        """some fact X <= 0 on the path gives target <= 0 (target <= X coefficient-wise, all symbols being non-negative)"""
+        return any(target.leq(c) for c in cons) or target.leq(Lin(0))
+    wraps = []
     st0 = S()
     st0.env = {nd: N}
     st0.fld = {'offset': O, 'length': L, 'buffer': ('ptr', 'BUF0', Lin(0))}
@@ -439,9 +448,6 @@ def _ensure_contract(u, fn, cfg, R):
                     s2.env[e['d']] = ('null',)
             work.append((y, s2))
 
-    def entails(cons, target):
-        """some fact X <= 0 on the path gives target <= 0 (target <= X coefficient-wise, all symbols being non-negative)"""
-        return any(target.leq(c) for c in cons) or target.leq(Lin(0))
     need = N.add(O).add(Lin(1))
     n_ok = 0
     for (node, val, st) in results:
@@ -462,7 +468,9 @@ def _ensure_contract(u, fn, cfg, R):
             okc = need.leq(cap)
         R.ob('OUT4', fn, node.stmt, 'a non-NULL result has room for needed + offset + 1 bytes', bool(okc),
              'capacity %s; the conditions on this path give needed + offset + 1 <= capacity' % cap if okc else
-             'capacity %s is not shown to hold N + O + 1 on this path' % cap, key='fit-accounting:%s' % ('inplace' if base == 'BUF0' else 'grown'))
+             'capacity %s is not shown to hold N + O + 1 on this path%s' % (
+                 cap, ''.join('; the size_t difference %s can wrap around on some path (its subtrahend is not bounded by the conditions before it)' % w
+                              for w in sorted({w for (_, w) in wraps}))), key='fit-accounting:%s' % ('inplace' if base == 'BUF0' else 'grown'))
         lenf = st.fld.get('length')
         R.ob('OUT4', fn, node.stmt, 'p->length describes the buffer the result points into', isinstance(lenf, Lin) and cap is not None and lenf.eq(cap),
              'p->length = %s, capacity %s' % (lenf, cap), key='fit-length:%s' % ('inplace' if base == 'BUF0' else 'grown'))
